@@ -260,6 +260,8 @@ def child(case):
         H = orc.height
         allh = orc.headers()
 
+        roots = {}
+
         async def headers_case(start, count, cp, cap, H=None):
             H = orc.height if H is None else H
             r = await cl.call('blockchain.block.headers', [start, count, cp], vtimeout=600)
@@ -285,6 +287,19 @@ def child(case):
                 viol('headers/content', f'headers({start},{count},{cp}) returned wrong header bytes')
             if res.get('count', 0) > cap:
                 viol('headers/over-cap', f'{res.get("count")} headers returned, advertised maximum {cap}')
+            if cp and want and 'branch' in res and 'root' in res:
+                # the proof that comes with the chunk: the LAST header returned must fold to the merkle root of all block hashes up
+                # to the checkpoint (long chain: clamped chunks and counts around 2016)
+                from exv.sysscen import fold_branch
+                from exv.chainsim import dsha, merkle_root
+                hh = start + want - 1
+                if cp not in roots:
+                    roots[cp] = merkle_root([dsha(allh[i * 80:(i + 1) * 80]) for i in range(cp + 1)])
+                got_root, rest = fold_branch(dsha(allh[hh * 80:(hh + 1) * 80]), res['branch'], hh)
+                bump('header_chunk_proofs_verified')
+                if rest != 0 or got_root != roots[cp] or res['root'] != roots[cp][::-1].hex():
+                    viol('headers/proof-does-not-verify', f'headers({start},{count},{cp}): the branch does not fold the last returned header '
+                         f'(height {hh}) to the merkle root of the block hashes up to {cp}')
             out['sigs'].append(digest(('hdr', cap, start - H, min(count, cap + 2) - cap, cp != 0)))
         rng = random.Random(case['seed'])
         starts = sorted({0, 1, 2, H - CAP - 1, H - CAP, H - CAP + 1, H - CAP + 2, H - 2, H - 1, H, H + 1, H + 2, H + 50} & set(range(0, H + 60)))
@@ -369,7 +384,7 @@ def run(tier, seed, replay=None):
     for name, minimum in {'history_requests': 50, 'histories_answered_in_full': 15, 'histories_refused_too_large': 15, 'refused_cached': 8,
                           'subscriptions_refused': 8, 'subscriptions_accepted': 8, 'over_limit_subscriptions_dropped': 8,
                           'overlapping_requests_judged': 60, 'pipelined_batches': 6, 'history_reads_overlapped_by_an_invalidation': 3,
-                          'headers_requests': 2000, 'headers_requests_with_an_unflushed_block_in_memory': 100, 'headers_refused_bad_checkpoint': 20, 'headers_requests_in_reorg_window': 100}.items():
+                          'headers_requests': 2000, 'headers_requests_with_an_unflushed_block_in_memory': 100, 'header_chunk_proofs_verified': 300, 'headers_refused_bad_checkpoint': 20, 'headers_requests_in_reorg_window': 100}.items():
         rep.floor(name, c[name], minimum)
     return rep.finish(
         rule='per MAX_SEND setting (350000, 350064, 350163 -> derived limits 3535/3536/3537; 400000; one below the 350000 floor) a chain '
@@ -387,4 +402,4 @@ def run(tier, seed, replay=None):
              're-advance held back by a slow daemon: the header file holds orphaned headers beyond the tip): count == min(requested, max, '
              'available), hex length, bytes, max. distinct = '
              '(MAX_SEND, length - limit, fresh/cached) + (cap, start - height, count - cap, cp given)',
-        assumptions=['a history of exactly `limit` entries may be answered either way', 'merkle proofs in header replies are judged by C11'])
+        assumptions=['a history of exactly `limit` entries may be answered either way'])
